@@ -13,6 +13,16 @@ CLAIMED = {
    note=BASE + "Option lists are abstracted to positions.",
    technique="Coq theorems about an extracted Gallina model + differential correspondence with the implementation",
    design="§6 C13"),
+ 'C16': dict(
+   text="Theorems: clamping (continuous over Q and over any decidable total order, discrete over Z) lands in range, is the identity "
+        "in range and returns the nearest in-domain value; set_des_var_value never stores an out-of-domain value, also on LINKED "
+        "nodes; a PrimFloat witness refutes the unclamped linked formula of the code as found (fixed by d6bfdac). "
+        "correct_value / set_des_var_value are compared with the extracted model on exact rationals.",
+   note=BASE + "Floats enter the model as exact rationals; the relative-position formula is compared exactly only where double "
+        "arithmetic is exact, otherwise the model decides domain membership of what the code stored. NaN is outside the quantifier. "
+        "PrimFloat primitives (kernel) appear under the refutation witness.",
+   technique="Coq theorems about an extracted Gallina model + differential correspondence with the implementation",
+   design="§6 C16"),
 }
 NA_REASON = "machinery under construction in this round; not yet claimed"
 
